@@ -151,6 +151,8 @@ Eval(e, env) ==
                           IF IsErr(x) \/ IsErr(y) THEN Err ELSE IF IsNum(x) /\ IsNum(y) THEN NAdd(x, y) ELSE Err
       [] e[1] = "idx0" -> LET x == Eval(e[2], env) y == Eval(e[3], env) IN                      \* [x, y][0]: nested brackets and a comma inside one select item
                           IF IsErr(x) \/ IsErr(y) THEN Err ELSE x
+      [] e[1] = "dsub" -> LET x == Eval(e[2], env) y == Eval(e[3], env) IN                      \* {"k": x, "m": y}["k"]: braces with a top-level comma inside one select item
+                          IF IsErr(x) \/ IsErr(y) THEN Err ELSE x
       [] e[1] = "udf" -> LET x == Eval(e[2], env) IN                                          \* udf(x) = x + "u", defined by the user's init code
                          IF IsErr(x) THEN Err ELSE IF x[1] = "s" THEN Str(x[2] \o <<117>>) ELSE Err
       [] e[1] = "poison" -> LET x == Eval(e[2], env) IN                                        \* raises iff the value is the poison string e[3]
